@@ -14,6 +14,8 @@ import Proofs.Lemmas.MofValue
 import Proofs.Lemmas.MofQualList
 import Proofs.Lemmas.MofInst
 import Proofs.Lemmas.MofClass
+import Proofs.Lemmas.MofTotal
+import Proofs.Lemmas.MofInstCase
 
 namespace C08
 open Pywbem.Proto Pywbem.Model Pywbem.Model.MofStr Pywbem.Model.MofLex Pywbem.Lemmas.MofStr
@@ -355,6 +357,56 @@ theorem C08_class_roundtrip_partial (c : Codec) (L : CodecLaws c) (decls : List 
     (hr : classTomof c cls maxline = .ok text) : readClass c decls text = some cls :=
   class_roundtrip c L decls cls hok maxline hm text hr
 
+open Pywbem.Model.MofVal Pywbem.Model.MofDecl Pywbem.Lemmas.MofInstCase in
+/-- INSTANCE ROUND TRIP WITH RE-CASED NAMES (partial as `C08_instance_roundtrip_partial`: embedded and char16
+    values excluded).  CIM names are case insensitive: an instance may spell its class name and its property names
+    in another case than the class declaration.  The compiler copies each property from the class, so the
+    property names come back in the class's spelling: reader(instance.tomof()) = `normInstance cls inst`, the
+    instance with exactly that documented normalisation (everything else — class name as written, types, array
+    shapes, values, order — unchanged).  `C08_instance_roundtrip_partial` is the special case of equal spelling. -/
+theorem C08_instance_roundtrip_recased_partial (c : Codec) (L : CodecLaws c) (cls : Class c) (inst : Instance c)
+    (hok : InstanceOkC c L cls inst) (maxline : Nat)
+    (hm : Pywbem.Generated.mofIndent + Pywbem.Generated.mofIndent + 8 ≤ maxline) (text : List Nat)
+    (hr : instanceTomof c inst maxline = .ok text) : readInstance c cls text = some (normInstance cls inst) :=
+  instance_roundtripC c L cls inst hok maxline hm text hr
+
+/-! ### totality of the declaration-level generators up to the documented ValueError
+
+Together with the round-trip theorems: for every expressible object, tomof() either raises the ValueError documented
+for `mofval` (a non-string literal wider than the line, known finding C08-F2) or returns text that the reader turns
+back into the object.  No "endless loop" assertion, no TypeError, no other exception. -/
+
+open Pywbem.Model.MofVal Pywbem.Model.MofDecl Pywbem.Lemmas.MofQual in
+theorem C08_qualifier_declaration_tomof_fails_only_with_valueerror (c : Codec) (L : CodecLaws c) (qd : QualDecl c)
+    (hok : QualDeclOk c L qd) (maxline : Nat) (hm : Pywbem.Generated.mofIndent + 8 ≤ maxline) (e : PyExc)
+    (hr : qualDeclTomof c qd maxline = .error e) : e = .valueError :=
+  Pywbem.Lemmas.MofTotal.qualDecl_ve c L qd hok maxline hm e hr
+
+open Pywbem.Model.MofVal Pywbem.Model.MofDecl Pywbem.Lemmas.MofQualList in
+theorem C08_qualifier_list_tomof_fails_only_with_valueerror (c : Codec) (L : CodecLaws c) (decls : List (QualDecl c))
+    (qs : List (Qualifier c)) (hok : ∀ q ∈ qs, QualifierOk c L decls q) (indent maxline : Nat)
+    (hm : indent + 1 + Pywbem.Generated.mofIndent + 8 ≤ maxline) (e : PyExc)
+    (hr : qualifiersTomof c qs indent maxline = .error e) : e = .valueError :=
+  Pywbem.Lemmas.MofTotal.quals_ve c L qs (fun q hq => (hok q hq).valueOk) indent maxline hm e hr
+
+open Pywbem.Model.MofVal Pywbem.Model.MofDecl Pywbem.Lemmas.MofInst in
+theorem C08_instance_tomof_fails_only_with_valueerror (c : Codec) (L : CodecLaws c) (cls : Class c)
+    (inst : Instance c) (hok : InstanceOk c L cls inst) (maxline : Nat)
+    (hm : Pywbem.Generated.mofIndent + Pywbem.Generated.mofIndent + 8 ≤ maxline) (e : PyExc)
+    (hr : instanceTomof c inst maxline = .error e) : e = .valueError :=
+  Pywbem.Lemmas.MofTotal.instance_ve c L cls inst hok maxline hm e hr
+
+open Pywbem.Model.MofVal Pywbem.Model.MofDecl Pywbem.Lemmas.MofClass in
+theorem C08_class_tomof_fails_only_with_valueerror (c : Codec) (L : CodecLaws c) (decls : List (QualDecl c))
+    (cls : Class c) (hok : ClassOk c L decls cls) (maxline : Nat)
+    (hm : Pywbem.Generated.mofIndent + Pywbem.Generated.mofIndent + Pywbem.Generated.mofIndent + 1 +
+      Pywbem.Generated.mofIndent + 8 ≤ maxline) (e : PyExc)
+    (hr : classTomof c cls maxline = .error e) : e = .valueError :=
+  Pywbem.Lemmas.MofTotal.class_ve c L decls cls hok maxline hm e hr
+
+-- the ValueError does occur: a real64 literal of 23 characters does not fit a 20-column line
+example : Pywbem.Model.MofStr.mofval (List.replicate 23 49) 3 20 0 3 = .error .valueError := by rfl
+
 section Stage2Examples
 open Pywbem.Model.MofVal Pywbem.Model.MofDecl Pywbem.Lemmas.MofQual Pywbem.Lemmas.MofQualList Pywbem.Lemmas.MofDoc
 open Pywbem.Lemmas.MofValue
@@ -462,6 +514,22 @@ example : ∃ text, instanceTomof toyCodec exInst 80 = .ok text ∧ readInstance
   · exact ⟨⟨82, [], rfl, by decide, by decide⟩, by rfl,
       ⟨exClass.props[1], by rfl, rfl, rfl, rfl, rfl, rfl, fun h => absurd h (by decide)⟩, rfl,
       by intro v hv; simp at hv⟩
+
+/-- `instance of C_A { p1 = "b"; };` against exClass: property `P1` spelled `p1` comes back as `P1` -/
+def exInstC : Instance toyCodec := ⟨[67, 95, 65], [⟨[112, 49], .string, none, false, none, some (.scalar (.str [98])), []⟩]⟩
+
+open Pywbem.Lemmas.MofInstCase in
+example : ∃ text, instanceTomof toyCodec exInstC 80 = .ok text ∧
+    readInstance toyCodec exClass text = some (normInstance exClass exInstC) ∧
+    (normInstance exClass exInstC).props.map (·.name) = [[80, 49]] := by
+  refine ⟨_, rfl, C08_instance_roundtrip_recased_partial toyCodec toyLaws exClass exInstC ?_ 80 (by decide) _ rfl, by rfl⟩
+  refine ⟨⟨67, [95, 65], rfl, by decide, by decide⟩, by rfl, ?_, by decide⟩
+  intro p hp
+  simp [exInstC] at hp
+  subst hp
+  exact ⟨⟨112, [49], rfl, by decide, by decide⟩, by rfl,
+    ⟨exClass.props[0], by rfl, rfl, rfl, rfl, rfl, fun _ => ⟨by rfl, by rfl⟩⟩, rfl,
+    by intro v hv; injection hv with hv; subst hv; exact ⟨rfl, rfl, by simp⟩⟩
 
 end Stage2Examples
 
